@@ -231,7 +231,7 @@ func c41CheckWire(r *vkit.Run, c *c41Case, m *negoModel, f *srvFlight, res *pair
 			}
 			if f.ALPN == "http/1.1" && inStr(cl.ALPN, "h2") && inStr(protos, "h2") {
 				// shape: h2 was mutually selected, then replaced
-				sig = "alpn:h2-rewritten-to-http/1.1" + strings.TrimPrefix(sig, "alpn:selected")
+				sig = "alpn:h2-rewritten-to-http1.1" + strings.TrimPrefix(sig, "alpn:selected")
 			}
 			r.Violation(sig, fmt.Sprintf("ServerHello selects ALPN %q; client offered %v, server list for %q is %v", f.ALPN, cl.ALPN, cl.SNI, protos), wit(nil))
 			reported = true
@@ -552,7 +552,7 @@ func c41(r *vkit.Run) {
 	}
 	// SCSV: exhaustive
 	sc := c41ScsvCases()
-	vkit.Parallel(len(sc), 0, func(i int) { c41Scsv(r, &sc[i]) })
+	vkit.Parallel(len(sc), workers, func(i int) { c41Scsv(r, &sc[i]) })
 	r.Count("scsv_cases", int64(len(sc)))
 	// negotiation
 	type cell struct {
@@ -570,9 +570,9 @@ func c41(r *vkit.Run) {
 			}
 		}
 	}
-	per := r.N(3, 60)
+	per := r.N(3, 40)
 	n := len(cells) * per
-	vkit.Parallel(n, 0, func(i int) {
+	vkit.Parallel(n, workers, func(i int) {
 		ce := cells[i/per]
 		g := r.Rng("nego", i/per, i%per)
 		c := c41Gen(g, ce.cert, ce.sv, ce.cv, ce.rule)
